@@ -157,12 +157,18 @@ def judge(m, prof, enc=(True, False)):
                                             f"(tally {[tally_pool(marks, pool, c) for c in range(m)]})"))
             # ---------------- super-majority
             for w in range(m):
-                for share in SHARES:
+                # one list of losers handed to every construction for this winner (a caller's list must survive the call)
+                losers = [NAMES[c] for c in range(m) if c != w]
+                for si, share in enumerate(SHARES):
                     con = contest(m, (w,), Contest.SOCIAL_CHOICE_FUNCTION.SUPERMAJORITY, share=share, cards=len(pool))
                     try:
-                        asns = Assertion.make_supermajority_assertion(con, share_to_win=share, winner=NAMES[w],
-                                                                      loser=[NAMES[c] for c in range(m) if c != w], test=NonnegMean.alpha_mart)
+                        if si % 2 == 0:  # the share passed explicitly ...
+                            asns = Assertion.make_supermajority_assertion(con, share_to_win=share, winner=NAMES[w], loser=losers, test=NonnegMean.alpha_mart)
+                        else:  # ... or left to the contest's own share_to_win
+                            asns = Assertion.make_supermajority_assertion(con, winner=NAMES[w], loser=losers, test=NonnegMean.alpha_mart)
                         a = next(iter(asns.values()))
+                        if abs(a.test.u - a.assorter.upper_bound) > 1e-12:
+                            out.append(("C02|supermajority|test-bound", f"share {share}: the assertion's test was built with u = {a.test.u}, assorter bound {a.assorter.upper_bound}"))
                         con.assertions = asns
                         vals = [a.assorter.assort(cvrs[i]) for i in pool]
                     except Exception as e:  # noqa
